@@ -996,6 +996,11 @@ mod recv_det {
         pub chunks: Vec<usize>,
         /// requested indices (distinct); request `m` is the one that must see the end of stream
         pub requests: Vec<usize>,
+        /// per request (same positions as `requests`), only applied when nothing was fed before the
+        /// first poll: 0 = nothing; 1 = an earlier request for the same index was polled once with
+        /// another waker and dropped; 2 = the request's future was polled once with another waker
+        /// before the task that owns it polls it (the future moved between contexts)
+        pub prepoll: Vec<u8>,
     }
 
     impl RCfg {
@@ -1003,7 +1008,7 @@ mod recv_det {
             self.stream.len() / self.s
         }
         pub fn json(&self) -> Value {
-            json!({"message_size": self.s, "capacity": self.cap, "stream": self.stream, "chunks": self.chunks, "requests": self.requests})
+            json!({"message_size": self.s, "capacity": self.cap, "stream": self.stream, "chunks": self.chunks, "requests": self.requests, "prepoll": self.prepoll})
         }
     }
 
@@ -1190,8 +1195,24 @@ mod recv_det {
             feed(&sh, &mut chunk_iter, &mut feeder_closed);
         }
         let mut exec = detexec::DetExec::new();
-        for &j in &cfg.requests {
-            exec.spawn(RecvTask::<N, _> { j, cfg, fut: Box::pin(recv.recv::<Bytes<N>, usize>(j)), sh: Rc::clone(&sh), first: true });
+        for (pos, &j) in cfg.requests.iter().enumerate() {
+            let mut fut = Box::pin(recv.recv::<Bytes<N>, usize>(j));
+            let pre = if prefed == 0 { cfg.prepoll.get(pos).copied().unwrap_or(0) } else { 0 };
+            if pre != 0 {
+                // a poll from a foreign context: its waker must not be the one that is kept once
+                // the owning task polls the request
+                let w = futures::task::noop_waker();
+                let mut cx = Context::from_waker(&w);
+                if pre == 1 {
+                    let mut early = Box::pin(recv.recv::<Bytes<N>, usize>(j));
+                    let _ = early.as_mut().poll(&mut cx);
+                    drop(early);
+                } else if fut.as_mut().poll(&mut cx).is_ready() {
+                    // nothing has been fed yet, so only a zero-length stream could be ready here
+                    return Err(CaseErr::Reject("pre-poll completed".into()));
+                }
+            }
+            exec.spawn(RecvTask::<N, _> { j, cfg, fut, sh: Rc::clone(&sh), first: true });
         }
         let mut trace: Vec<i64> = vec![];
         let mut spurious = 0;
@@ -1375,7 +1396,7 @@ mod recv_det {
         }
         let eager = (h >> 8) & 1 == 1;
         let highest_first = (h >> 9) & 1 == 1;
-        let cfg = RCfg { s: b.s, cap, stream, chunks, requests };
+        let cfg = RCfg { s: b.s, cap, stream, chunks, requests, prepoll: vec![] };
         let n_chunks = cfg.chunks.len();
         // requests are first polled in the order of `requests`; woken requests run either
         // immediately (eager) or after all first polls
@@ -1462,9 +1483,12 @@ mod recv_det {
                 requests = p;
             }
         }
-        let cfg = RCfg { s, cap, stream, chunks, requests };
+        // waker changes: a third of the cases abandon / migrate some requests before any data arrives
+        let prepoll: Vec<u8> = if src.chance(1, 3) { (0..requests.len()).map(|_| src.pick(&[0u8, 0, 1, 2])).collect() } else { vec![] };
+        let cfg = RCfg { s, cap, stream, chunks, requests, prepoll };
         let n_chunks = cfg.chunks.len();
         let prefed = match src.below(4) {
+            _ if cfg.prepoll.iter().any(|p| *p != 0) => 0,
             0 => 0,
             1 => n_chunks + 1,
             _ => src.idx(n_chunks + 1),
@@ -1492,6 +1516,7 @@ mod recv_det {
             Act::Poll(v.runnable[src.idx(v.runnable.len())])
         })?;
         let nontrivial = m >= 2 && out.ahead > 0;
+        let waker_changes = cfg.prepoll.iter().filter(|p| **p != 0).count();
         let sample = json!({"case": cfg.json(), "prefed_chunks": prefed, "schedule": out.trace});
         let mut ok = CaseOk::new(nontrivial, &(s, cap, &cfg.stream, &cfg.chunks, &cfg.requests, &out.trace), sample);
         let mut l = |c: bool, s: &str| {
@@ -1512,6 +1537,7 @@ mod recv_det {
         l(tail > 0, "trailing_partial_message");
         l(m > 6, "more_than_6_messages");
         l(m == 0, "no_complete_message");
+        l(waker_changes > 0, "request_repolled_with_another_waker");
         Ok(ok)
     }
 }
